@@ -325,36 +325,7 @@ impl Interp {
                 let r = ix(1);
                 let Some(cq) = self.cqs[r].as_mut() else { return json!("nocq") };
                 let Some(cqe) = cq.next() else { return Value::Null };
-                let (ud, res) = (cqe.user_data(), cqe.result());
-                let cands: Vec<usize> = self
-                    .ops
-                    .iter()
-                    .enumerate()
-                    .filter(|(_, o)| o.ring == r && o.ud == ud && o.state == OpState::Pushed)
-                    .map(|(i, _)| i)
-                    .collect();
-                let mut data = Value::Null;
-                let mut twin = Value::Null;
-                if cands.len() == 1 {
-                    let oi = cands[0];
-                    self.ops[oi].state = OpState::Done;
-                    let o = &self.ops[oi];
-                    if o.kind == "read" {
-                        let n = res.max(0) as usize;
-                        data = json!(self.bufs[o.buf][..n.min(self.bufs[o.buf].len())].to_vec());
-                    } else {
-                        data = json!([]);
-                    }
-                    let rejected = o.flags & 0b101111 != 0;
-                    if res != -125 && !rejected && o.kind != "cancel" {
-                        twin = self.twin_replay(now, oi);
-                    } else {
-                        twin = json!("none");
-                    }
-                } else if cands.len() > 1 {
-                    twin = json!("ambiguous");
-                }
-                json!([ud, res, data, twin, cqe.flags()])
+                self.cqe_json(r, cqe.user_data(), cqe.result(), cqe.flags(), now)
             }
             "readable" => {
                 let r = ix(1);
@@ -443,6 +414,73 @@ impl Interp {
                 json!([main, twin])
             }
             _ => panic!("unknown cmd {name}"),
+        }
+    }
+
+    /// [ud, res, read data | null, twin replay | "none" | "ambiguous" | null, flags]
+    fn cqe_json(&mut self, r: usize, ud: u64, res: i32, flags: u32, now: Duration) -> Value {
+        let cands: Vec<usize> = self
+            .ops
+            .iter()
+            .enumerate()
+            .filter(|(_, o)| o.ring == r && o.ud == ud && o.state == OpState::Pushed)
+            .map(|(i, _)| i)
+            .collect();
+        let mut data = Value::Null;
+        let mut twin = Value::Null;
+        if cands.len() == 1 {
+            let oi = cands[0];
+            self.ops[oi].state = OpState::Done;
+            let o = &self.ops[oi];
+            if o.kind == "read" {
+                let n = res.max(0) as usize;
+                data = json!(self.bufs[o.buf][..n.min(self.bufs[o.buf].len())].to_vec());
+            } else {
+                data = json!([]);
+            }
+            let rejected = o.flags & 0b101111 != 0;
+            if res != -125 && !rejected && o.kind != "cancel" {
+                twin = self.twin_replay(now, oi);
+            } else {
+                twin = json!("none");
+            }
+        } else if cands.len() > 1 {
+            twin = json!("ambiguous");
+        }
+        json!([ud, res, data, twin, flags])
+    }
+
+    /// The consumer loop of the conformance tests: sync + next, else await
+    /// `AsyncFd::readable`. Returns every iteration as [step, visible, cqe|null].
+    async fn await_cqe(&mut self, r: usize, step_no: &std::rc::Rc<std::cell::Cell<u64>>) -> Value {
+        let fd = match self.rings[r].as_ref() {
+            Some(ring) => <IoUring as AsRawFd>::as_raw_fd(ring),
+            None => return json!("dropped"),
+        };
+        let afd = match AsyncFd::new(RingFdHandle(fd)) {
+            Ok(a) => a,
+            Err(_) => return json!("gone"),
+        };
+        let mut iters = Vec::new();
+        loop {
+            let (len, cqe) = {
+                let ring = self.rings[r].as_mut().unwrap();
+                let mut cq = ring.completion();
+                cq.sync();
+                (cq.len(), cq.next())
+            };
+            match cqe {
+                Some(c) => {
+                    let j = self.cqe_json(r, c.user_data(), c.result(), c.flags(), Duration::ZERO);
+                    iters.push(json!([step_no.get(), len, j]));
+                    return json!({ "iters": iters });
+                }
+                None => iters.push(json!([step_no.get(), len, Value::Null])),
+            }
+            if afd.readable().await.is_err() {
+                iters.push(json!([step_no.get(), -1, Value::Null]));
+                return json!({ "iters": iters });
+            }
         }
     }
 
@@ -555,13 +593,28 @@ fn run_sim(case: &Value) -> Value {
     let bufs_out: Rc<RefCell<Vec<Value>>> = Rc::new(RefCell::new(Vec::new()));
     let times: Rc<RefCell<Vec<Value>>> = Rc::new(RefCell::new(Vec::new()));
     let boots = Rc::new(RefCell::new(0u64));
+    let step_no = Rc::new(std::cell::Cell::new(0u64));
     let notify = Rc::new(tokio::sync::Notify::new());
     {
-        let (queue, out, bufs_out, times, boots, notify) =
-            (queue.clone(), out.clone(), bufs_out.clone(), times.clone(), boots.clone(), notify.clone());
+        let (queue, out, bufs_out, times, boots, notify, step_no) = (
+            queue.clone(),
+            out.clone(),
+            bufs_out.clone(),
+            times.clone(),
+            boots.clone(),
+            notify.clone(),
+            step_no.clone(),
+        );
         sim.host("h", move || {
-            let (queue, out, bufs_out, times, boots, notify) =
-                (queue.clone(), out.clone(), bufs_out.clone(), times.clone(), boots.clone(), notify.clone());
+            let (queue, out, bufs_out, times, boots, notify, step_no) = (
+                queue.clone(),
+                out.clone(),
+                bufs_out.clone(),
+                times.clone(),
+                boots.clone(),
+                notify.clone(),
+                step_no.clone(),
+            );
             async move {
                 let first = *boots.borrow() == 0;
                 *boots.borrow_mut() += 1;
@@ -580,6 +633,12 @@ fn run_sim(case: &Value) -> Value {
                             out.borrow_mut().push(Value::Null);
                             continue;
                         }
+                        if c[0] == "await_cqe" {
+                            let r = c[1].as_u64().unwrap() as usize;
+                            let o = it.await_cqe(r, &step_no).await;
+                            out.borrow_mut().push(o);
+                            continue;
+                        }
                         let o = it.cmd(&c, now, &mut closed);
                         out.borrow_mut().push(o);
                         times.borrow_mut().push(json!(now.as_nanos() as u64));
@@ -591,7 +650,8 @@ fn run_sim(case: &Value) -> Value {
         });
     }
     let mut obs = Vec::new();
-    for st in case["script"].as_array().unwrap() {
+    for (k, st) in case["script"].as_array().unwrap().iter().enumerate() {
+        step_no.set(k as u64);
         match st["ctl"].as_str() {
             Some("crash") => sim.crash("h"),
             Some("bounce") => sim.bounce("h"),
